@@ -723,6 +723,9 @@ class Tr:
                     if n[0] == "num" and n[1] in ("2", "3"):
                         return "(nmul %s %s)" % (R, R) if n[1] == "2" else "(nmul (nmul %s %s) %s)" % (R, R, R)
                     raise Unsupported("powi exponent")
+                if name == "signum" and not args:
+                    # f64::signum away from -0.0 and NaN (Model.AlignParams.signum)
+                    return "(if nltb %s (nofZ 0) then nneg (nofZ 1) else (nofZ 1))" % R
                 if name == "is_nan":
                     return "(nisnan %s)" % R
                 if name == "is_finite":
